@@ -152,7 +152,8 @@ def _pure57():
 
 
 PURE57 = _pure57()
-INT_KINDS = {"int": int, "np.int64": np.int64, "np.uint64": np.uint64, "np.intp": np.intp}
+INT_KINDS = {"int": int, "np.int64": np.int64, "np.uint64": np.uint64, "np.intp": np.intp, "np.int32": np.int32, "np.int16": np.int16, "np.uint8": np.uint8,
+             "np.uint32": np.uint32}
 
 
 @st.composite
@@ -163,7 +164,13 @@ def order_case(draw):
     calls = []
     for _ in range(draw(st.integers(1, 8))):
         n = min(2**62 - 1, max(0, draw(one) + draw(st.sampled_from([0, 0, 0, 1, -1, 5, 129]))))
-        calls.append([draw(st.sampled_from(["next", "prev", "prev", "both"])), n, draw(st.sampled_from(sorted(INT_KINDS)))])
+        kind = draw(st.sampled_from(sorted(INT_KINDS)))
+        if kind in ("np.int32", "np.int16", "np.uint8", "np.uint32"):
+            # a narrow NumPy integer: N from the upper half of what the type holds (where 2*N no longer fits), or small
+            top = int(np.iinfo(INT_KINDS[kind]).max)
+            n = draw(st.one_of(st.integers(top // 2, top), st.integers(0, top), st.sampled_from([s for s in tab if s <= top][-40:])))
+            n = min(top, max(0, n + draw(st.sampled_from([0, 0, 1, -1]))))
+        calls.append([draw(st.sampled_from(["next", "prev", "prev", "both"])), n, kind])
     return {"calls": calls}
 
 
@@ -235,7 +242,7 @@ SUBS = [
     Sub("call_orders", order_case(), run_orders,
         "1..8 next/prev_fast_len calls in drawn order from a fresh state of pulsarbat.utils (module re-executed at the start of every case), N "
         "drawn from the pure 5^a*7^b numbers, all 7-smooth numbers, powers of two and random values (+-1, +5, +129), given as Python int / "
-        "np.int64 / np.uint64 / np.intp; non-trivial = at least two calls whose N is at least twice every earlier N, or a NumPy integer above 2^53",
+        "np.int64 / np.uint64 / np.intp / np.int32 / np.uint32 / np.int16 / np.uint8 (the narrow ones with N in the upper half of their range); non-trivial = at least two calls whose N is at least twice every earlier N, or a NumPy integer above 2^53",
         quick=1600, thorough=100000),
     Sub("fast_len_signal", fl_strategy(), run_fast_len, "signals of every class, length 0..5000; non-trivial = length > 10 "
         "and not 7-smooth (so samples are actually dropped)", quick=600, thorough=20000),
